@@ -474,7 +474,15 @@ def h_pace( ctx ):
         res.bad( src, op, 'due test', 'a record is due iff not ts > advance() + lookahead' )
         return res
     ADV = dotted( late_( tests[0].expr )['_adv'] )
-    horizon = pfind( op, '%s = %s + ( lookahead or 0.0 )' % ( ADV, CUR )) + pfind( op, '%s = %s + ( lookahead or 0 )' % ( ADV, CUR ))
+    # ( decided by value: every store of the horizon is evaluated for a clock of 100 s and look-aheads None / 0 / 2.5 / 10 - any way of writing
+    # "the clock plus the look-ahead, none meaning 0" passes )
+    from .fold import fold, NoFold
+    def horizon_ok_( e ):
+        try:
+            return all( fold( e, { CUR: 100.0, 'lookahead': la, 'self.factor': 7.0 } ) == 100.0 + ( la or 0.0 ) for la in ( None, 0, 0.0, 2.5, 10 ))
+        except NoFold:
+            return False
+    horizon = [ ( a_, None ) for a_ in ast.walk( op ) if isinstance( a_, ast.Assign ) and any( dotted( t_ ) == ADV for t_ in a_.targets ) and horizon_ok_( a_.value ) ]
     clock = pfind( op, '%s = self.advance()' % CUR )
     if horizon and clock:
         res.ok( src, horizon[0][0], 'horizon = self.advance() + ( lookahead or 0.0 )' )
@@ -483,7 +491,7 @@ def h_pace( ctx ):
     # all stores to ADV use that form and every store of CUR is self.advance()
     for s in ast.walk( op ):
         if isinstance( s, ast.Assign ) and any( dotted( t ) == ADV for t in s.targets ):
-            if not ( pmatch( s.value, '%s + ( lookahead or 0.0 )' % CUR ) or pmatch( s.value, '%s + ( lookahead or 0 )' % CUR )):
+            if not horizon_ok_( s.value ):
                 res.bad( src, s, s, 'the horizon must be the advancing historical time plus the look-ahead' )
         if isinstance( s, ast.Assign ) and any( dotted( t ) == CUR for t in s.targets ) and not pmatch( s.value, 'self.advance()' ):
             res.bad( src, s, s, 'the current historical time reported with each record must come from self.advance()' )
